@@ -73,6 +73,7 @@ PROP = {  # subject prefix -> (properties, what failed before the repair)
  "nanmean of integers is averaged in float64": ("C20", "nanops.nanmean of int64 values whose total leaves the 64-bit range (six epoch-nanosecond values) returned the wrapped total / n"),
  "nanvar / nanstd use two passes": ("C20", "nanops.nanvar([1e8+1, 1e8+2, 1e8+3]) = 0.0, negative variances / nanstd NaN for epoch-second sized data, int64 squares wrapped: the one-pass formula sum(x^2) - sum(x)^2/n"),
  "rolling sum / mean keep a compensation term": ("C09", "rolling_sum([1e16, 1, 1, 1], window=2) ended in 1.0 instead of 2.0 for every later row: add / subtract running sums kept the rounding error of every value that ever passed through the group"),
+ "an infinite value that has left a rolling window": ("C09", "rolling_sum([1, inf, 1, 1, 1], window=2): every sum after the infinity had left the window was NaN (inf - inf stayed in the running sum)"),
  "apply returns an empty result": ("C05 C09", "median/apply with nothing selected raised IndexError (was known finding K2)"),
 }
 log = subprocess.run(["git", "-C", "/repo", "log", "--format=%h %s", "be63ad5..HEAD"], stdout=subprocess.PIPE).stdout.decode().splitlines()
